@@ -32,7 +32,8 @@ def insertSorted (c : Ctx) : List Ctx → List Ctx
 
 def sortCtxs (cs : List Ctx) : List Ctx := cs.foldl (fun acc c => insertSorted c acc) []
 
-def rRec (r : Rec) : String := s!"{r.fab},{r.peer},{r.minInt},{r.maxInt}"
+def rRec (r : Rec) : String :=
+  s!"{r.fab},{r.peer},{r.minInt},{r.maxInt},{match r.id with | some j => toString j | none => "?"}"
 
 def rState (s : State) : String :=
   let rep := match s.reporting with | some x => rSub x | none => "-"
@@ -90,7 +91,7 @@ def maxBoots : Nat := 4
 structure St where
   m : State := State.new 1000000 1
   o : List OSub := []
-  /-- the records the implementation showed in its store after the last op (`fab,peer,min,max`) -/
+  /-- the records the implementation showed in its store after the last op (`fab,peer,min,max,id`) -/
   okv : List String := []
   boots : Nat := 1
   dead : Bool := false
@@ -143,7 +144,7 @@ def oracle (hz n : Nat) (okv : List String) (os : List OSub) (ws : List String) 
     -- what persistence is for: every settled live subscription has a record in the store (a
     -- subscription that is being primed / reported on is not demanded)
     let missing := os.find? fun o =>
-      o.flight.isNone && !o.unknown && !(ikv.contains s!"{o.fab},{o.peer},{o.minInt},{o.maxInt}")
+      o.flight.isNone && !o.unknown && !(ikv.contains s!"{o.fab},{o.peer},{o.minInt},{o.maxInt},{o.id}")
     match res, missing with
     | ["ok"], some o => (os, some s!"live subscription {o.id} has no persisted record")
     | _, _ => (os, checkPresent os itab)
@@ -153,7 +154,8 @@ def oracle (hz n : Nat) (okv : List String) (os : List OSub) (ws : List String) 
       -- every subscription of the old boot has ended; the records that were in the store (the first
       -- N, in slot order) are resumed, not primed: each is owed everything
       let want := okv.take n
-      let got := itab.map fun i => s!"{i.fab},{i.peer},{i.minInt},{i.maxInt}"
+      -- … under the ids their subscribers know them by
+      let got := itab.map fun i => s!"{i.fab},{i.peer},{i.minInt},{i.maxInt},{i.id}"
       let everything : Entry := { ep := WEP, cl := WCL, attr := WAT, id := 0 }
       let os' : List OSub := itab.map fun i =>
         { id := i.id, fab := i.fab, peer := i.peer, minInt := i.minInt, maxInt := i.maxInt,
